@@ -11,29 +11,57 @@ func verifStrictTwoThirds(voted, total *big.Int) bool {
 	return new(big.Int).Mul(voted, big.NewInt(3)).Cmp(new(big.Int).Mul(total, big.NewInt(2))) > 0
 }
 
+// The node compares the big.Float quotient voted/total (rounded to 64 bits)
+// with float64(2./3.) = 6004799503160661 / 2^53, which is slightly below 2/3.
+// The harness models big.Float over exact reals, so verdicts are only drawn
+// outside a band of +-2^-60 around that constant (the 64-bit rounding of the
+// quotient moves it by at most 2^-64 relative): verifAboveBand / verifBelowBand.
+func verifBand(voted, total *big.Int, delta int64) int {
+	n := new(big.Int).Add(new(big.Int).Lsh(big.NewInt(6004799503160661), 7), big.NewInt(delta)) // * 2^-60
+	d := new(big.Int).Lsh(big.NewInt(1), 60)
+	return new(big.Int).Mul(voted, d).Cmp(new(big.Int).Mul(n, total))
+}
+func verifAboveBand(voted, total *big.Int) bool { return verifBand(voted, total, 1) > 0 }
+func verifBelowBand(voted, total *big.Int) bool { return verifBand(voted, total, -1) < 0 }
+
+// verifAccepted asserts the two halves of "accepted => strictly more than 2/3".
+func verifAccepted(tag string, voted, total *big.Int) {
+	verifAssert("C20:"+tag+"=>not-below-threshold", !verifBelowBand(voted, total))
+	if verifAboveBand(voted, total) {
+		verifAssert("C20:"+tag+"=>strictly-more-than-2/3", verifStrictTwoThirds(voted, total))
+	}
+}
+
 // C20: a halt takes effect iff the validators that voted for it hold strictly
 // more than two thirds of the power present in the block.
 func VerifHarness_C20_Halt() {
 	bc := verifChain()
 	n := verifConfig("validators")
-	keys, stakes := verifValidators(bc, n)
+	keys, stakes, present := verifValidators(bc, n)
 	const h = 1000
 	voted := big.NewInt(0)
 	for i := 0; i < n; i++ {
 		if verifBool("vote" + string(rune('1'+i))) {
 			bc.stateDeliver.Halts.AddHaltBlock(h, keys[i])
-			voted.Add(voted, stakes[i])
+			if present[i] {
+				voted.Add(voted, stakes[i])
+			}
 		}
 	}
 	total := big.NewInt(0)
-	for _, s := range stakes {
-		total.Add(total, s)
+	for i, s := range stakes {
+		if present[i] {
+			total.Add(total, s)
+		}
 	}
-	verifAssert("total-power=sum", bc.totalPower.Cmp(total) == 0)
+	if total.Sign() == 0 {
+		return // nobody present: the node substitutes total power 1; not a governance question
+	}
+	verifAssert("C20:total-power=sum-of-present", bc.totalPower.Cmp(total) == 0)
 	halted := bc.isApplicationHalted(h)
 	want := verifStrictTwoThirds(voted, total)
 	if halted {
-		verifAssert("C20:halt=>strictly-more-than-2/3", want)
+		verifAccepted("halt", voted, total)
 	} else {
 		verifAssert("C20:strictly-more-than-2/3=>halt", !want)
 	}
@@ -51,20 +79,27 @@ func verifPriceVote(send int64) []byte {
 func VerifHarness_C20_Commission() {
 	bc := verifChain()
 	n := verifConfig("validators")
-	keys, stakes := verifValidators(bc, n)
+	keys, stakes, present := verifValidators(bc, n)
 	const h = 1000
 	propA, propB := verifPriceVote(1), verifPriceVote(2)
 	forA, forB, total := big.NewInt(0), big.NewInt(0), big.NewInt(0)
 	for i := 0; i < n; i++ {
-		total.Add(total, stakes[i])
+		w := big.NewInt(0)
+		if present[i] {
+			w = stakes[i]
+		}
+		total.Add(total, w)
 		switch verifChoice("choice"+string(rune('1'+i)), 3) {
 		case 1:
 			bc.stateDeliver.Commission.AddVote(h, keys[i], propA)
-			forA.Add(forA, stakes[i])
+			forA.Add(forA, w)
 		case 2:
 			bc.stateDeliver.Commission.AddVote(h, keys[i], propB)
-			forB.Add(forB, stakes[i])
+			forB.Add(forB, w)
 		}
+	}
+	if total.Sign() == 0 {
+		return
 	}
 	res := bc.isUpdateCommissionsBlockV2(h)
 	okA, okB := verifStrictTwoThirds(forA, total), verifStrictTwoThirds(forB, total)
@@ -74,9 +109,9 @@ func VerifHarness_C20_Commission() {
 	} else {
 		isA := string(res) == string(propA)
 		if isA {
-			verifAssert("C20:adopted-A=>A>2/3", okA)
+			verifAccepted("adopted-A", forA, total)
 		} else {
-			verifAssert("C20:adopted-B=>B>2/3", okB)
+			verifAccepted("adopted-B", forB, total)
 		}
 	}
 }
@@ -85,19 +120,26 @@ func VerifHarness_C20_Commission() {
 func VerifHarness_C20_Network() {
 	bc := verifChain()
 	n := verifConfig("validators")
-	keys, stakes := verifValidators(bc, n)
+	keys, stakes, present := verifValidators(bc, n)
 	const h = 1000
 	forA, forB, total := big.NewInt(0), big.NewInt(0), big.NewInt(0)
 	for i := 0; i < n; i++ {
-		total.Add(total, stakes[i])
+		w := big.NewInt(0)
+		if present[i] {
+			w = stakes[i]
+		}
+		total.Add(total, w)
 		switch verifChoice("choice"+string(rune('1'+i)), 3) {
 		case 1:
 			bc.stateDeliver.Updates.AddVote(h, keys[i], "vA")
-			forA.Add(forA, stakes[i])
+			forA.Add(forA, w)
 		case 2:
 			bc.stateDeliver.Updates.AddVote(h, keys[i], "vB")
-			forB.Add(forB, stakes[i])
+			forB.Add(forB, w)
 		}
+	}
+	if total.Sign() == 0 {
+		return
 	}
 	v, ok := bc.isUpdateNetworkBlockV2(h)
 	okA, okB := verifStrictTwoThirds(forA, total), verifStrictTwoThirds(forB, total)
@@ -105,8 +147,8 @@ func VerifHarness_C20_Network() {
 		verifAssert("C20:A>2/3=>adopted", !okA)
 		verifAssert("C20:B>2/3=>adopted", !okB)
 	} else if v == "vA" {
-		verifAssert("C20:adopted-A=>A>2/3", okA)
+		verifAccepted("adopted-A", forA, total)
 	} else {
-		verifAssert("C20:adopted-B=>B>2/3", okB)
+		verifAccepted("adopted-B", forB, total)
 	}
 }
